@@ -42,7 +42,7 @@ def runtime : Table := [
       ((.udunder .neg), (.construct .IntMut (.unop .neg (.arg .selfVal)))),
       ((.udunder .pos), (.arg .self))
     ] },
-  { cls := .Nat, bases := [.Int], init := (some InitKind.opaque),
+  { cls := .Nat, bases := [.Int], init := (some InitKind.checkNonneg),
     methods := [
       ((.dunder .add), (.then_ (.superCall (.dunder .add) (.arg .other)) (.ifInst .other .Nat .Nat .Int))),
       ((.dunder .mul), (.then_ (.superCall (.dunder .mul) (.arg .other)) (.ifInst .other .Nat .Nat .Int))),
